@@ -94,6 +94,8 @@ class OutlineBase(plumpy.WorkChain):
         self.ctx['calls-of.%s' % name] = self.ctx.get('calls-of.%s' % name, 0) + 1
         # ... or a name that some function on the way may well use for a parameter of its own
         self.ctx['data'] = {'last': name}
+        # the entries of the context come in the order in which they were made (a step that goes through them sees that order)
+        self.ctx['key_order'] = [k for k in vars(self.ctx) if k.startswith('calls-of.')]
         if kind == 's' and self.inputs.get('midsave_keep') == idx:
             # ... and this one is kept (by whoever asked for it: MIDSNAPS), to go on from should the instance be lost during this step
             import pickle
